@@ -1405,7 +1405,8 @@ def run(chk, cases=None, rejections=None):
 # ----------------------------------------------------------------------------------------------------------
 IMPORTS_SRC = IMPORTS + "From PV Require C10.SrcRun.\n"
 SRC_TIE_THEOREMS = ["c10_source_tokens_is_model", "c10_source_tokens_refines_model", "c10_source_tokens_check_is_check",
-                    "c10_source_tokens_raises", "c10_source_tokens_2d_empty", "c10_source_tokens_kept_in_order"]
+                    "c10_source_tokens_raises_ndim", "c10_source_tokens_raises_last_dim", "c10_source_tokens_raises_slices",
+                    "c10_source_tokens_raises_ref_lens", "c10_source_tokens_2d_empty", "c10_source_tokens_kept_in_order"]
 # (refs shape, slices shape, ref_lens shape or None): calls the source must reject with RuntimeError / accept
 SRC_TIE_SHAPES = [((1, 3, 2), (1, 2), None), ((1, 3, 3), (2, 2), None), ((1, 3, 3), (1, 2), (2,)), ((3,), (1, 2), None),
                   ((1, 3, 3, 1), (1, 2), None), ((2, 2, 3), (2, 3), None), ((1, 3, 3), (1, 2), (1,)), ((2, 0, 3), (2, 2), None)]
